@@ -171,6 +171,24 @@ def main():
                 audit(e, 'CheckOnCurve (real field code)', {}, {px_.obj: 'public key x', py_.obj: 'public key y'}, set())
             e.call_outcome(SM2 + '.GenerateKey', [rd])
             audit(e, 'GenerateKey (real group layer)', {}, {}, set())
+            # message-level entry points with the real SM3 (no hash model in this engine)
+            if o2.kind == 'return' and o2.values[2] is None:
+                idb = e.new_slice([0x31 + (j % 8) for j in range(16)])
+                msg = e.new_slice([(j * 3 + 1) & 0xff for j in range(70)])
+                e.store_log.clear()
+                oz = e.call_outcome(SM2 + '.ZA', [idb, px_, py_])
+                audit(e, 'ZA (real SM3)', {}, {idb.obj: 'id', px_.obj: 'public key x', py_.obj: 'public key y'}, set())
+                os_ = e.call_outcome(SM2 + '.Sign', [idb, px_, py_, rd, priv, msg])
+                if os_.kind == 'return' and os_.values[2] is None:
+                    r3, s3, _ = os_.values
+                    audit(e, 'Sign (real code)', {}, {idb.obj: 'id', msg.obj: 'message', priv.obj: 'private key'}, {r3.obj, s3.obj})
+                    e.call_outcome(SM2 + '.Verify', [idb, px_, py_, msg, r3, s3])
+                    audit(e, 'Verify (real code)', {}, {idb.obj: 'id', msg.obj: 'message', r3.obj: 'r', s3.obj: 's'}, set())
+                    if oz.kind == 'return' and oz.values[1] is None:
+                        e.call_outcome(SM2 + '.VerifyZa', [px_, py_, oz.values[0], msg, r3, s3])
+                        audit(e, 'VerifyZa (real code)', {}, {msg.obj: 'message', r3.obj: 'r', s3.obj: 's'}, set())
+                        e.call_outcome(SM2 + '.SignZa', [rd, priv, oz.values[0], msg])
+                        audit(e, 'SignZa (real code)', {}, {msg.obj: 'message', priv.obj: 'private key'}, set())
         else:
             findings.append(('SignHashed (real group layer)', 'not-run', 'concrete SignHashed on the real code did not return a signature: %s' % (o.panic.msg if o.kind == 'panic' else 'error')))
 
@@ -240,6 +258,10 @@ func TestVerifReplay(t *testing.T) {
 		x, y, err := DerivePublic(priv); if err != nil { t.Fatal(err) }
 		r, s, err := SignHashed(&fixedReader{byte(i + 1)}, priv, e); if err != nil { t.Fatal(err) }
 		ok, err := VerifyHashed(x, y, e, r, s); if !ok || err != nil { t.Errorf("valid signature rejected (worker %d)", i) }
+		id := []byte("1234567812345678"); msg := bytes.Repeat([]byte{byte(i + 1)}, 3000)
+		rm, sm, err := Sign(id, x, y, &fixedReader{byte(i + 7)}, priv, msg); if err != nil { t.Fatal(err) }
+		if ok, err := Verify(id, x, y, msg, rm, sm); !ok || err != nil { t.Errorf("valid message-level signature rejected (worker %d)", i) }
+		r = append(append([]byte{}, r...), rm...); s = append(append([]byte{}, s...), sm...)
 		return res{r, s, x, y}
 	}
 	serial := make([]res, G)
